@@ -18,10 +18,11 @@ import (
 
 // real executes v2.* lines on a real system.
 type real struct {
-	s *v2sys.Sys
+	s         *v2sys.Sys
+	relTarget map[string]string
 }
 
-func newReal() *real { return &real{} }
+func newReal() *real { return &real{relTarget: map[string]string{}} }
 
 func (r *real) Close() {
 	if r.s != nil {
@@ -64,6 +65,7 @@ func (r *real) ExecHint(line string) (out string, twinLine string) {
 			return "error " + err.Error(), line
 		}
 		r.s = s
+		r.relTarget = map[string]string{}
 		return "ok", line
 	}
 	if r.s == nil {
@@ -101,7 +103,53 @@ func (r *real) ExecHint(line string) (out string, twinLine string) {
 		default:
 			return "bad-op", line
 		}
+		// topology events as the topo watchers of the mastership and configuration controllers map them
+		switch args[0] {
+		case "relup":
+			s.Wake("mast:"+args[2], "cfg:"+args[2])
+		case "devrestart":
+			s.Wake("mast:"+args[1], "cfg:"+args[1])
+		case "reldown", "conndown", "connup":
+			if t, ok := r.relTarget[args[1]]; ok {
+				s.Wake("mast:"+t, "cfg:"+t)
+			}
+		}
+		if args[0] == "relup" {
+			r.relTarget[args[1]] = args[2]
+		}
 		return "ok", line
+	case "v2.watch":
+		// real-only: from here on the real store watchers feed a faithful work queue (v2.auto)
+		if err := s.StartWatchers(); err != nil {
+			return "error " + err.Error(), line
+		}
+		return "ok", line
+	case "v2.auto":
+		// real-only: process the faithful work queue until it stays empty
+		o := v2sys.AutoOpts{Policy: "fifo", MaxSteps: 600, Bad: map[uint64]bool{}, Refuse: map[uint64]bool{}}
+		if v, ok := kv(args, "policy"); ok {
+			o.Policy = v
+		}
+		if v, ok := kv(args, "seed"); ok {
+			o.Seed, _ = strconv.ParseInt(v, 10, 64)
+		}
+		if v, ok := kv(args, "max"); ok {
+			o.MaxSteps, _ = strconv.Atoi(v)
+		}
+		for key, m := range map[string]map[uint64]bool{"bad": o.Bad, "refuse": o.Refuse} {
+			if v, ok := kv(args, key); ok {
+				for _, x := range strings.Split(v, ",") {
+					n, _ := strconv.ParseUint(x, 10, 64)
+					m[n] = true
+				}
+			}
+		}
+		n, q, trace := s.Auto(o)
+		tr := strings.Join(trace, ",")
+		if len(tr) > 1500 {
+			tr = tr[:1500] + "..."
+		}
+		return fmt.Sprintf("auto steps=%d quiescent=%v trace=%s %s", n, q, tr, s.State()), line
 	case "v2.set":
 		changes := map[string][]v2sys.PV{}
 		for _, c := range args[2:] {
